@@ -11,7 +11,8 @@
     refinement carry a float-free hypothesis, floats are compared numerically by the correspondence only (finding F142
     lives exactly there). *)
 From Coq Require Import String Ascii NArith ZArith Bool List.
-From TV Require Import Fmt.JsonModel Fmt.JsonProofsRender Fmt.JsonProofsParse Fmt.JsonProofsMap Fmt.JsonProofsRecord.
+From TV Require Import Common.Sched Fmt.JsonModel Fmt.JsonProofsRender Fmt.JsonProofsParse Fmt.JsonProofsMap Fmt.JsonProofsRecord
+  Fmt.JsonConc Fmt.JsonConcProofs.
 From TVGen Require Import Gen_json.
 Import ListNotations.
 Local Open Scope N_scope.
@@ -331,6 +332,55 @@ Print Assumptions C14_lifecycle_record_content.
 Theorem C14_lifecycle_fields_ok : forall o s msg t, event_ok o (life_event s msg t).
 Proof. exact life_event_ok. Qed.
 Print Assumptions C14_lifecycle_fields_ok.
+
+(** ** "In any number of steps" when the steps OVERLAP: concurrent `record` calls on one span.  fmt_subscriber.rs on_record as
+    micro-steps (acquire the extensions write lock - read the stored object - format (user Debug / Display impls run here) -
+    store - release), any number of threads, each with any list of calls, EVERY schedule (Common/Sched.v).  [repo_atomic] is
+    read off on_record's source on every run (the write lock is taken before the stored fields are read and held until
+    add_fields has stored the merged text); these statements do not compile on a tree where it is not. *)
+Theorem C14_concurrent_records_serializable : forall lg m0 progs sched,
+  let s := crun (repo_cfg_of lg) repo_atomic m0 progs sched in
+  c_stored s = serial (repo_cfg_of lg) m0 (c_log s) /\
+  (forall t th, nth_error (c_threads s) t = Some th ->
+     log_of t (c_log s) = th_done th /\ nth_error progs t = Some (th_done th ++ th_todo th)).
+Proof. intros lg m0 progs sched. exact (serializable (repo_cfg_of lg) m0 progs sched). Qed.
+Print Assumptions C14_concurrent_records_serializable.
+
+Theorem C14_concurrent_records_all_kept : forall lg m0 progs sched,
+  let s := crun (repo_cfg_of lg) repo_atomic m0 progs sched in
+  finished s ->
+  c_stored s = serial (repo_cfg_of lg) m0 (c_log s) /\ forall t p, nth_error progs t = Some p -> log_of t (c_log s) = p.
+Proof. intros lg m0 progs sched. exact (serializable_finished (repo_cfg_of lg) m0 progs sched). Qed.
+Print Assumptions C14_concurrent_records_all_kept.
+
+(** no recorded field is lost, whatever the interleaving: the key of every write of every stored call is present afterwards
+    and holds the value of the last write to it in the serial order *)
+Theorem C14_concurrent_no_lost_field : forall lg m0 progs sched t vals n v,
+  let s := crun (repo_cfg_of lg) repo_atomic m0 progs sched in
+  In (t, vals) (c_log s) -> In (n, v) (eff (repo_cfg_of lg) vals) ->
+  lookup (span_key n v) (c_stored s) =
+    last_write (span_key n v) (concat (map (fun e => eff (repo_cfg_of lg) (snd e)) (c_log s))) (lookup (span_key n v) m0) /\
+  exists j, lookup (span_key n v) (c_stored s) = Some j.
+Proof. intros lg m0 progs sched t vals n v. exact (no_lost_field (repo_cfg_of lg) m0 progs sched t vals n v eq_refl). Qed.
+Print Assumptions C14_concurrent_no_lost_field.
+
+(** two threads: the object left behind is one of the serial outcomes (an executable list: one per order-preserving merge) *)
+Theorem C14_race_outcome : forall lg m0 p1 p2 sched,
+  let s := crun (repo_cfg_of lg) repo_atomic m0 [p1; p2] sched in
+  finished s -> In (c_stored s) (race_outcomes (repo_cfg_of lg) m0 p1 p2).
+Proof. intros lg m0 p1 p2 sched. exact (race_outcome (repo_cfg_of lg) m0 p1 p2 sched). Qed.
+Print Assumptions C14_race_outcome.
+
+(** the variant without the lock (a private snapshot, the lock taken only to store) loses an update under a concrete
+    two-thread schedule — the locked machine keeps both fields under the same schedule *)
+Theorem C14_lost_update_without_lock : forall c,
+  let p1 := [[([97], VU64 1)]] in
+  let p2 := [[([98], VU64 2)]] in
+  let s := crun c false [] [p1; p2] lost_update_sched in
+  finished s /\ lookup [97] (c_stored s) = None /\ lookup [98] (c_stored s) = Some (JInt 2%Z) /\
+  ~ In (c_stored s) (race_outcomes c [] p1 p2).
+Proof. exact lost_update. Qed.
+Print Assumptions C14_lost_update_without_lock.
 
 (** ** The model has the shape the translator reads off the source (key order, trailing newline, which Visit methods the
     two visitors override, where `r#` is stripped, root-first iteration); nothing was unrecognised. *)
